@@ -529,6 +529,19 @@ def gen_text_cases(ctx: Ctx):
             rows.append(s)
         cases.append(dict(kind="text", text="\n".join(rows) + ("\n" if r.random() < 0.8 else ""),
                           ext=r.choice([".txt", ".data"])))
+    # regular texts: the same run of separator characters (a gap) between every two neighbours
+    for _ in range(ctx.budget(120, 600)):
+        ny, nx = r.randint(1, 3), r.randint(1, 4)
+        k = r.random()
+        if k < 0.5:
+            d = r.choice(seps)
+            gap = r.choice(["", " ", "\t", "  "][:3]) + d + r.choice(["", " ", "\t"])
+        else:
+            gap = "".join(r.choice(seps) for _ in range(r.randint(1, 3)))
+        rows = [gap.join(str(r.randint(-50, 50)) for _ in range(nx)) for _ in range(ny)]
+        if r.random() < 0.1:
+            rows[r.randrange(ny)] = r.choice([" ", "\t"]) + rows[0]            # leading blank on one line
+        cases.append(dict(kind="text", text="\n".join(rows) + "\n", ext=r.choice([".txt", ".data"])))
     return [c for c in cases if tokenise(c["text"]) is not None]
 
 
